@@ -633,6 +633,19 @@ impl Ctx {
                 self.setcounter(c, n.parse().unwrap())
             }
             ["reopen"] => self.reopen(),
+            ["fault", spec] => {
+                // fault K:before|after,...  applies to the next operation only
+                let plan: Vec<(usize, bool)> = spec
+                    .split(',')
+                    .map(|x| {
+                        let (k, w) = x.split_once(':').unwrap();
+                        (k.parse().unwrap(), w == "after")
+                    })
+                    .collect();
+                self.store.as_ref().unwrap().set_plan(plan);
+                self.emit(format!("fault {spec}"), "faultset".into());
+                return;
+            }
             ["walk", c] => self.walk(c.parse().unwrap()),
             ["reread", c] => self.reread(c.parse().unwrap()),
             ["swalk", c] => self.swalk(c.parse().unwrap()),
@@ -644,6 +657,18 @@ impl Ctx {
             ["dumpall"] => self.dump_all(),
             ["rows"] => self.rows(),
             other => panic!("bad symbolic op {:?}", other),
+        }
+        self.after_op();
+    }
+
+    /// a fault plan applies to one operation; report how many faults actually fired
+    pub fn after_op(&mut self) {
+        if let Some(st) = self.store.as_ref() {
+            let had = !st.faults.lock().unwrap().plan.is_empty();
+            let fired = st.clear_plan();
+            if had {
+                self.emit(format!("mark fired {fired}"), "mark".into());
+            }
         }
     }
 }
